@@ -82,10 +82,28 @@ def evaluate(f, data, n, pred_hook=None, memo=None):
     return _ev(f, data, n, pred_hook, memo)
 
 
+PAST_SPREAD = ('once', 'historically', 'since', 'precedes')
+FUTURE_SPREAD = ('eventually', 'always', 'until', 'unless')
+
+
 def _ev(f, data, n, hook, memo):
     if f in memo:
         return memo[f]
     out = _ev1(f, data, n, hook, memo)
+    o = f[0]
+    if o in PAST_SPREAD or o in FUTURE_SPREAD:
+        # conservative taint: a correct implementation may fold a NaN operand sample that lies anywhere in
+        # the operator's direction of view (e.g. a backward recursion for until) into position t, even if
+        # the window formulation used here never reads it; such positions are don't-care as well
+        ks = [memo[k] for k in f[2:]]
+        bad = [any(k[i] != k[i] for k in ks) for i in range(n)]
+        acc = False
+        rng_ = range(n) if o in PAST_SPREAD else range(n - 1, -1, -1)
+        out = list(out)
+        for i in rng_:
+            acc = acc or bad[i]
+            if acc:
+                out[i] = float('nan')
     memo[f] = out
     return out
 
